@@ -228,6 +228,35 @@ fn shard(seed: u64, shard: u64, shards: u64, tier: Tier) -> Tally {
             }
         }
     }
+    // --- random pairs at nanosecond resolution: random server instants, request instants scattered around both bounds
+    // (±2 s, ±2 ms, ±200 ns, exact) and across the whole ±20 min range, in random renderings
+    for i in 0..tier.n(1500, 150_000) {
+        let mut r = Rng::keyed(seed, "C04", "random", shard, i);
+        let now = Inst {
+            s: r.range(-2_000_000_000, 200_000_000_000),
+            ns: if r.chance(1, 4) {
+                0
+            } else {
+                r.below(1_000_000_000) as u32
+            },
+        };
+        let bound: i128 = if r.coin() {
+            900_000_000_000
+        } else {
+            -900_000_000_000
+        };
+        let delta: i128 = match r.below(6) {
+            0 => bound,
+            1 => bound + r.range(-200, 200) as i128,
+            2 => bound + r.range(-2_000_000, 2_000_000) as i128,
+            3 => bound + r.range(-2_000_000_000, 2_000_000_000) as i128,
+            4 => r.range(-1_200_000_000_000, 1_200_000_000_000) as i128,
+            _ => bound + r.range(-1, 1) as i128,
+        };
+        let tt = now.plus_ns(delta);
+        let text = render_ts(tt, r.coin(), r.range(-56, 56) * 15, r.below(2) as u8, r.coin(), r.coin(), r.usize_below(4));
+        probe(&mut t, &mut l, &cfg, tt, now, Some(text), "random", &mut sr);
+    }
     t
 }
 
@@ -250,6 +279,7 @@ pub fn run(tier: Tier) -> i32 {
         }
     }
     ctx.gate("bound-adjacent instants decided correctly for every server instant (cells)", ok_cells, servers.len() as u64 * 6);
+    ctx.gate("random nanosecond-resolution probes around the bounds", tally.get("random/inside") + tally.get("random/expired") + tally.get("random/not-yet"), tier.n(40_000, 4_000_000));
     ctx.gate("grid probes inside", tally.get("grid/full/inside") + tally.get("grid/bounds/inside"), tier.n(5_000, 100_000));
     ctx.gate("grid probes expired", tally.get("grid/full/expired") + tally.get("grid/bounds/expired"), tier.n(2_000, 20_000));
     ctx.gate("grid probes not yet valid", tally.get("grid/full/not-yet") + tally.get("grid/bounds/not-yet"), tier.n(2_000, 20_000));
@@ -257,7 +287,7 @@ pub fn run(tier: Tier) -> i32 {
     ctx.exhaustive("±2 s around both bounds × 4×4 sub-second parts at all 14 server instants, both carriers", true);
     let rep = Report {
         level: "exploration",
-        rule: "Grid of (request instant, server instant) pairs at nanosecond resolution: whole-second offsets in [−1200 s, +1200 s] × sub-second part ∈ {0, 1 ns, 0.5 s, 999 999 999 ns} on both sides, at server instants on day / month / year / leap-day boundaries and years 0002 / 9997; the six instants at and one nanosecond either side of both bounds for every server instant, each in many textual renderings (basic/extended, 15 UTC offsets incl. half/quarter hours, fraction lengths 0–12, ',' or '.'); both carriers; X-Amz-Date and Date headers. Every request is validly signed, so 'inside ⇒ accepted' is observable. Oracle: integer nanosecond arithmetic (no chrono), provider event log must be empty outside the window. Distinct = distinct (t, now, text) triples that were decided in agreement with the oracle.".into(),
+        rule: "Grid of (request instant, server instant) pairs at nanosecond resolution: whole-second offsets in [−1200 s, +1200 s] × sub-second part ∈ {0, 1 ns, 0.5 s, 999 999 999 ns} on both sides, at server instants on day / month / year / leap-day boundaries and years 0002 / 9997; the six instants at and one nanosecond either side of both bounds for every server instant, each in many textual renderings (basic/extended, 15 UTC offsets incl. half/quarter hours, fraction lengths 0–12, ',' or '.'); both carriers; X-Amz-Date and Date headers; plus random (t, now) pairs at nanosecond resolution scattered around both bounds (exact, ±1 ns, ±200 ns, ±2 ms, ±2 s) and over the whole range, at random server instants of years 1906–8307, in random renderings. Every request is validly signed, so 'inside ⇒ accepted' is observable. Oracle: integer nanosecond arithmetic (no chrono), provider event log must be empty outside the window. Distinct = distinct (t, now, text) triples that were decided in agreement with the oracle.".into(),
         assumptions: vec!["server years 0002–9997 (beyond that chrono's own range arithmetic applies and the properties are silent)".into()],
         extra: J::obj().set("calibrated_vectors", J::i(pre.unwrap_or(0) as i64)),
     };
